@@ -54,6 +54,12 @@ struct SEM(u32, #[entities] Entity);
 struct SEU(u32);
 #[derive(Event, Serialize, Deserialize, Clone, Copy)]
 struct ST(u32);
+/// a server trigger whose PAYLOAD is mapped too (`add_mapped_server_trigger`); registered last
+#[derive(Event, Serialize, Deserialize, Clone, Copy, MapEntities)]
+struct STM(u32, #[entities] Entity);
+/// a client trigger without payload (registered last; only injected bytes ever arrive on its channel)
+#[derive(Event, Serialize, Deserialize, Clone, Copy)]
+struct CTU;
 #[derive(Event, Serialize, Deserialize, Clone, Copy)]
 struct CE0(u32);
 #[derive(Event, Serialize, Deserialize, Clone, Copy, MapEntities)]
@@ -116,6 +122,16 @@ fn log_server_side(mut log: ResMut<EventLog>, mut a: EventReader<FromClient<CE0>
 fn observe_st(trigger: Trigger<ST>, mut log: ResMut<EventLog>) {
     let t = trigger.target();
     log.0.push(("ST", trigger.event().0, if t == Entity::PLACEHOLDER { None } else { Some(t) }, None));
+}
+
+fn observe_stm(trigger: Trigger<STM>, mut log: ResMut<EventLog>) {
+    let t = trigger.target();
+    log.0.push(("STM", trigger.event().0, if t == Entity::PLACEHOLDER { None } else { Some(t) }, None));
+}
+
+fn observe_ctu(trigger: Trigger<FromClient<CTU>>, mut log: ResMut<EventLog>) {
+    let t = trigger.target();
+    log.0.push(("CTU", 0, if t == Entity::PLACEHOLDER { None } else { Some(t) }, Some(trigger.event().client)));
 }
 
 fn observe_ct(trigger: Trigger<FromClient<CT>>, mut log: ResMut<EventLog>) {
@@ -264,10 +280,12 @@ fn add_common(app: &mut App, cfg: &Cfg, server_side: bool) {
         .add_mapped_server_event::<SEM>(Channel::Ordered)
         .add_server_event::<SEU>(Channel::Unreliable)
         .add_server_trigger::<ST>(Channel::Ordered)
+        .add_mapped_server_trigger::<STM>(Channel::Ordered)
         .add_client_event::<CE0>(Channel::Ordered)
         .add_mapped_client_event::<CEM>(Channel::Ordered)
         .add_client_trigger::<CT>(Channel::Ordered)
         .add_client_event::<CEV>(Channel::Ordered)
+        .add_client_trigger::<CTU>(Channel::Ordered)
         .init_resource::<EventLog>();
     if cfg.track {
         app.track_mutate_messages();
@@ -506,6 +524,14 @@ fn apply_sops(world: &mut World) {
                             world.send_event(ToClients { mode, event: SEM(seq, t) });
                         }
                     }
+                    "STM" => {
+                        // the payload names script entity 1 (an entity the scenario keeps visible), the target is `ent`
+                        let payload = world.resource::<Table>().ents.get(&1).copied();
+                        if let (Some(t), Some(p)) = (target, payload) {
+                            world.commands().server_trigger_targets(ToClients { mode, event: STM(seq, p) }, t);
+                            world.flush();
+                        }
+                    }
                     "ST" => {
                         if let Some(t) = target {
                             world.commands().server_trigger_targets(ToClients { mode, event: ST(seq) }, t);
@@ -657,7 +683,7 @@ struct Sim {
     track: bool,
 }
 
-const NCH: usize = 8;
+const NCH: usize = 10;
 
 fn vstr(v: u32) -> String {
     format!("{v}")
@@ -678,6 +704,7 @@ impl Sim {
             .add_systems(PreUpdate, mirror_cleanup_timer)
             .add_systems(Update, (log_server_side, log_server_side_vec, log_disconnect_requests, apply_sops).chain())
             .add_observer(observe_ct)
+            .add_observer(observe_ctu)
             // same shape as `send_replication`: the change detection is only evaluated while the server runs
             .configure_sets(
                 PostUpdate,
@@ -704,7 +731,8 @@ impl Sim {
                 .init_resource::<Pre>()
                 .init_resource::<TickEvents>()
                 .add_systems(Update, (apply_cops, collect_tick_events, log_client_side))
-                .add_observer(observe_st);
+                .add_observer(observe_st)
+                .add_observer(observe_stm);
             app.finish();
             app.cleanup();
             clients.push(ClientSlot {
@@ -835,7 +863,7 @@ impl Sim {
     /// server->client event channels: 2 SE0, 3 SEI, 4 SEM, 5 SEU, 6 ST (one later under the protocol check, where
     /// channel 2 carries the ProtocolMismatch trigger)
     fn decode_sevent(&self, ch: usize, mut m: Bytes) -> String {
-        let names = ["SE0", "SEI", "SEM", "SEU", "ST"];
+        let names = ["SE0", "SEI", "SEM", "SEU", "ST", "STM"];
         if self.proto() && ch == 2 {
             return "PMISMATCH".into();
         }
@@ -850,13 +878,16 @@ impl Sim {
                     let e = Entity::try_from_bits(bits).ok()?;
                     Some(format!("{name} t={tick} {seq}:r{}", self.sid(e)))
                 }
-                "ST" => {
+                "ST" | "STM" => {
                     let n: usize = postcard_utils::from_buf(&mut m).ok()?;
                     let mut t = None;
                     for _ in 0..n {
                         t = Some(entity_serde::deserialize_entity(&mut m).ok()?);
                     }
                     let seq: u32 = postcard_utils::from_buf(&mut m).ok()?;
+                    if *name == "STM" {
+                        let _payload: u64 = postcard_utils::from_buf(&mut m).ok()?;
+                    }
                     Some(match t {
                         Some(e) => format!("{name} t={tick} {seq}:r{}", self.sid(e)),
                         None => format!("{name} t={tick} {seq}"),
